@@ -955,7 +955,11 @@ htp_status_t htp_connp_REQ_FINALIZE(htp_connp_t *connp) {
     //Adds linefeed to the buffer if there was one
     if (connp->in_next_byte == LF) {
         IN_COPY_BYTE_OR_RETURN(connp);
-        htp_connp_req_consolidate_data(connp, &data, &len);
+        // (a line that no longer fits the buffer is an error, not a
+        // line without its line feed)
+        if (htp_connp_req_consolidate_data(connp, &data, &len) != HTP_OK) {
+            return HTP_ERROR;
+        }
     }
 #ifdef LIBHTP_VERIF
     htp_verif_site(HTP_VERIF_SITE_REQ_FINALIZE_AS_BODY, connp, (long) len, 0);
